@@ -20,7 +20,8 @@ func ZZ_C24_OntCrossChainMsgQuorum() {
 	peers := &ConsensusPeers{ChainID: chainID, Height: 0, PeerMap: make(map[string]*Peer)}
 	for i := 0; i < N; i++ {
 		id := vconfig.PubkeyID(zzsym.PubKey(i))
-		peers.PeerMap[id] = &Peer{Index: uint32(i + 1), PeerPubkey: id}
+		// peer indices are whatever the Ontology chain assigned: any 32-bit value
+		peers.PeerMap[id] = &Peer{Index: zzsym.U32("peerindex"), PeerPubkey: id}
 	}
 	if err := putConsensusPeers(ns, peers); err != nil {
 		panic("zz: putConsensusPeers")
